@@ -1,0 +1,9 @@
+//! Verification hooks (feature `verif`, off by default).
+//!
+//! Re-exports of items that are `pub` inside private modules and thin wrappers around
+//! `pub(crate)` items, used by the property-based harness in `/verif`. Nothing in here is
+//! compiled unless the `verif` feature is enabled and nothing in the rest of the crate
+//! depends on it.
+
+#![allow(missing_docs)]
+#![allow(unused)]
